@@ -14,9 +14,10 @@ CONSTANTS
   Weak_NoReloadOnRestart = FALSE
   Weak_PendingSkipsExpiry = TRUE
   Weak_LateAddUnchecked = FALSE
+  Weak_BufferUsesCurrentValSet = FALSE
 INIT Init
 NEXT Next
 INVARIANTS SizeExact OnceOnly
-PROPERTIES AdmitOnlyAdmissible AdmitGenuine BlockCheck ExpiryBoth SurvivesRestart BufferFlushed PendingKept CommittedKept OfferedOnce
+PROPERTIES AdmitOnlyAdmissible AdmitGenuine BlockCheck ExpiryBoth SurvivesRestart BufferFlushed PendingKept CommittedKept OfferedOnce NoPanic
 VIEW View
 CHECK_DEADLOCK FALSE
